@@ -264,9 +264,14 @@ def printers(ctx, rep, T):
         for facet, need in FACETS[be].items():
             have = key_sites[facet]
             rep.check(len(have) >= need, 'V4', f'{be}:{facet}-key-sites', f'{len(have)} site(s) fed by the serde {facet} key', f"{be}: {len(have)} template position(s) are fed by the serde {facet} key, the {be} encoding needs at least {need} (declaration, decoder, encoder …)", {'file': file, 'line': 0})
-            raw_in_fn = {g2['qual'] for g2, s2, c2, seq2, ix2 in have if not [v for v in c2[2] if v not in ('to_string', 'clone', 'as_str', 'to_owned')]}
+            from .. import transforms as _tr
+
+            def key_changing(vias):
+                # identity / quote-if-needed helpers keep the key's text (derived from the helper bodies on every run)
+                return [v for v in vias if v not in ('to_string', 'clone', 'as_str', 'to_owned') and _tr.summarize(ctx, v)['kind'] not in ('identity', 'quote-select')]
+            raw_in_fn = {g2['qual'] for g2, s2, c2, seq2, ix2 in have if not key_changing(c2[2])}
             for g, s, c, seq, ix in have:
-                lossy = [v for v in c[2] if v not in ('to_string', 'clone', 'as_str', 'to_owned')]
+                lossy = key_changing(c[2])
                 if lossy and not string_position(seq, ix) and g['qual'] not in raw_in_fn:
                     # a transformed key (identifier position) is only harmless next to the raw key that carries the wire name
                     rep.fail('V4', f"{be}:{g['name']}:{facet}-key-only-transformed", f"{be}: {g['qual']} writes the serde {facet} key only through {lossy} and nowhere as it is: whenever the transform changes the text (camelCase / capitalised / keyword / digit keys) the generated type reads and writes a different JSON key than serde", {'file': g['file'], 'line': s['line']})
